@@ -37,6 +37,13 @@ CHECKS = {
         note=SIMNOTE + ' Line-level interleavings are explored with at most 3 pre-emptions, the pre-empting thread running whole handlers.',
         technique='schedule-exploring property-based testing on a deterministic runtime simulator (Hypothesis-generated programs/schedules/pre-emptions + exhaustive single-pre-emption enumeration)',
     ),
+    'C09': dict(
+        category='exploration',
+        text='Generated circuits (2-8 qudits, 3-qudit gates, barriers, partitioned blocks) x connected coupling graphs (line/ring/star/grid/tree/tree+edges, machine >= circuit) x workflows [SetModel, Greedy/Trivial/Static placement, GeneralizedSabre layout (1-3 passes), routing, ApplyPlacement] with generated algorithm parameters, driven in-process and judged stage by stage: placement connected and injective, layout touches neither circuit nor mappings, routed circuit = input + swaps only with the swap product equal to the recorded final mapping, every multi-qudit operation on physically connected qudits, and the mapping-aware embedding oracle (state-vector simulation of all embedded basis states, one global phase, no leakage) under initial/final mapping. The thorough tier adds permutation-aware (PAM) layout/routing on a real runtime with pre-synthesised permutations.',
+        design_ref='DESIGN.md §4 C09, §3.3',
+        note='Trusted: vt/oracle/embed.py + refsim, trace equivalence. SABRE passes are driven in-process (they never await). PAM arm needs a real runtime per shard (private ports) and a synthesis tolerance derived from measured per-block errors.',
+        technique='property-based testing with Hypothesis against an independent mapping-aware simulation oracle and structural postconditions',
+    ),
     'C12': dict(
         category='exploration',
         text='Generated task trees containing cancellation nodes (map + b x next() + cancel, submit + cancel, submit + cancel + await) and client-side cancel/disconnect of one of two compilations at a drawn moment, run on the deterministic simulator over generated topologies and delivery orders. Oracle: reference values (cancelled work never appears in any value; awaiting a cancelled future fails the compilation with the documented RuntimeError), execution log (non-cancelled bodies exactly once, cancelled at most once, none started on a worker after it handled the CANCEL), table hygiene at quiescence on every worker and on the server, and the other compilation completing correctly.',
@@ -71,6 +78,27 @@ CHECKS = {
         design_ref='DESIGN.md §4 C16',
         note='Trusted: pickle/dill; comparison through the public read API. Exploration only.',
         technique='round-trip and metamorphic (mutate-one-side) property tests over Hypothesis-generated objects and edit histories',
+    ),
+    'C17': dict(
+        category='exploration',
+        text='(A) Round-trip: generated qubit circuits over every gate with a QASM spelling (enumerated from bqskit.ir.gates at run time), controlled/frozen/CircuitGate blocks (nested), placeholders; decode(encode(c)) must have the same flattened per-qubit operation sequence (matrices to 1e-9), parameters to 1e-12 relative, same placeholder targets and the same unitary (1e-7). (B) Differential: a grammar-based generator of OpenQASM 2 programs (several registers, qelib1 gates, U/CX, nested user gates with formal parameters in expressions, + - * / ^, unary minus, parentheses, scientific notation, pi, sin/cos/tan/exp/ln/sqrt, barrier/measure/reset) decoded by BQSKit and by Qiskit qasm2.loads; unitaries must agree up to bit order and global phase and placeholder targets must match; one-sided rejection is a violation named after the construct. (T) Qiskit translators in both directions (cirq/pytket in the thorough tier).',
+        design_ref='DESIGN.md §4 C17',
+        note='Trusted: Qiskit 2.5.2 qasm2 loader and Operator as the outside implementation; refsim. Gate broadcast over whole registers is outside the property\'s subset and is not generated. Open findings are reported as KNOWN-FINDING and their constructs excluded from generation (counted) with one dedicated case each.',
+        technique='round-trip property testing + grammar-based differential testing against Qiskit over Hypothesis-generated programs',
+    ),
+    'C18': dict(
+        category='exploration',
+        text='Every concrete gate class exported by bqskit.ir.gates (found by reflection; an unregistered class is a harness error) with generated constructor arguments (radix 2-5, controls/levels, powers, frozen subsets, embeddings, tags, locations, sizes) and parameter vectors from a special-value set: unitarity and advertised shape, get_grad vs central finite differences and vs the expression backend, get_unitary_and_grad consistency, inverse gate x gate = identity, calc_params/optimize of general and locally optimisable gates (one-directional optimum test against 200 seeded candidates), composed gates vs the algebra done independently in numpy, equal-implies-equal-hash over rebuilt and pickled pairs, and a hand-reviewed table of 46 names compared with Qiskit\'s matrices.',
+        design_ref='DESIGN.md §4 C18',
+        note='Trusted: numpy, Qiskit gate library (bit order reversed), finite differences with step 1e-6 / tolerance 1e-5 scaled. Open findings reported as KNOWN-FINDING.',
+        technique='reflection-driven property-based testing with Hypothesis: finite-difference, algebraic and Qiskit-differential oracles per gate class',
+    ),
+    'C19': dict(
+        category='exploration',
+        text='Generated circuits over native, Python-path (user-defined gates without expression backend) and composed gates, mixed radixes, widths 1-4, with generated parameter vectors and unitary / state / state-system targets: Hilbert-Schmidt cost and residual functions are compared with numpy reference formulas built on the independent simulator, gradients and Jacobians with central finite differences of the reference, exact-zero at phase-equivalent targets; instantiate() with both instantiaters, all minimisers and 1-8 seeded starts must return the same object, leave structure untouched, and keep a candidate whose reference cost is the minimum over the candidates it produced (observed through a harness subclass).',
+        design_ref='DESIGN.md §4 C19',
+        note='Trusted: refsim, numpy. The native engine is exercised only through the Python API. Convergence is never judged. Open findings (native CRY gradient, QFactor limitations) are reported as KNOWN-FINDING and excluded from generation after counting.',
+        technique='differential testing of native vs reference numpy cost/gradient over Hypothesis-generated circuits; metamorphic structure-invariance checks for instantiate',
     ),
     'C20': dict(
         category='exploration',
